@@ -116,6 +116,11 @@ func (db *SingleBucketBackend) ListBucket(bucket string, prefix *gofakes3.Prefix
 func (db *SingleBucketBackend) getBucketWithFilePrefixLocked(bucket string, prefixPath, prefixPart string) (*gofakes3.ObjectList, error) {
 	response := gofakes3.NewObjectList()
 
+	// No key has empty, '.' or '..' segments, so no key matches such a prefix:
+	if prefixPath != "" && !validObjectName(prefixPath) {
+		return response, nil
+	}
+
 	// A prefix that does not lead to a directory matches no keys; that is an
 	// empty listing, not an error:
 	if isDir, err := afero.DirExists(db.fs, filepath.FromSlash(prefixPath)); err != nil {
@@ -248,6 +253,10 @@ func (db *SingleBucketBackend) HeadObject(bucketName, objectName string) (*gofak
 		return nil, gofakes3.BucketNotFound(bucketName)
 	}
 
+	if !validObjectName(objectName) {
+		return nil, gofakes3.KeyNotFound(objectName)
+	}
+
 	db.lock.Lock()
 	defer db.lock.Unlock()
 
@@ -278,6 +287,10 @@ func (db *SingleBucketBackend) HeadObject(bucketName, objectName string) (*gofak
 func (db *SingleBucketBackend) GetObject(bucketName, objectName string, rangeRequest *gofakes3.ObjectRangeRequest) (obj *gofakes3.Object, err error) {
 	if bucketName != db.name {
 		return nil, gofakes3.BucketNotFound(bucketName)
+	}
+
+	if !validObjectName(objectName) {
+		return nil, gofakes3.KeyNotFound(objectName)
 	}
 
 	db.lock.Lock()
@@ -341,6 +354,10 @@ func (db *SingleBucketBackend) PutObject(
 
 	if bucketName != db.name {
 		return result, gofakes3.BucketNotFound(bucketName)
+	}
+
+	if !validObjectName(objectName) {
+		return result, invalidObjectName(objectName)
 	}
 
 	err = gofakes3.MergeMetadata(db, bucketName, objectName, meta)
@@ -449,6 +466,11 @@ func (db *SingleBucketBackend) DeleteObject(bucketName, objectName string) (resu
 }
 
 func (db *SingleBucketBackend) deleteObjectLocked(bucketName, objectName string) error {
+	if !validObjectName(objectName) {
+		// Such a key cannot have been stored, so there is nothing to delete:
+		return nil
+	}
+
 	// S3 does not report an error when attemping to delete a key that does not exist, so
 	// we need to skip IsNotExist errors.
 	if err := db.fs.Remove(filepath.FromSlash(objectName)); err != nil && !os.IsNotExist(err) {
